@@ -1182,6 +1182,7 @@ private:
 			for (RowIterator iter = std::move(begin); iter != end; ++iter)
 			{
 				ConstRowReference rowRef = *iter;
+				rowRef.GetRaw();	// check
 				MOMO_CHECK(&rowRef.GetColumnList() == &columnList);
 				Raw* raw = ConstRowReferenceProxy::GetRaw(rowRef);
 				if (columnList.GetNumber(raw) != invalidNumber)
@@ -1222,6 +1223,7 @@ private:
 		for (RowIterator iter = std::move(begin); iter != end; ++iter)
 		{
 			ConstRowReference rowRef = *iter;
+			rowRef.GetRaw();	// check
 			MOMO_CHECK(&rowRef.GetColumnList() == &GetColumnList());
 			Raw* raw = ConstRowReferenceProxy::GetRaw(rowRef);
 			if (rawMap.Insert(raw, count).inserted)
@@ -1254,6 +1256,7 @@ private:
 			for (RowIterator iter = std::move(begin); iter != end; ++iter)
 			{
 				ConstRowReference rowRef = *iter;
+				rowRef.GetRaw();	// check
 				MOMO_CHECK(&rowRef.GetColumnList() == &columnList);
 				columnList.SetNumber(ConstRowReferenceProxy::GetRaw(rowRef), invalidNumber);
 			}
@@ -1278,6 +1281,7 @@ private:
 		for (RowIterator iter = std::move(begin); iter != end; ++iter)
 		{
 			ConstRowReference rowRef = *iter;
+			rowRef.GetRaw();	// check
 			MOMO_CHECK(&rowRef.GetColumnList() == &GetColumnList());
 			rawSet.Insert(ConstRowReferenceProxy::GetRaw(rowRef));
 		}
